@@ -74,11 +74,11 @@ variable {K O : Type} [DecidableEq K]
 variable (key : O → K) (ver : O → Option Int) (acc : O → Bool)
 
 /-- the cache holds, for key `k`, the accepted server content at index `s`, and every server change of `k`
-from `s` on is still ahead of the cache (index ≥ a) -/
+from `s` on is still ahead of the cache (index ≥ a) — or was lost to a buffer overflow -/
 def CCut (w : CW K O) (k : K) (s : Nat) : Prop :=
   s ≤ w.hist.length ∧
   lookup k w.items = view acc (w.state key ver s k) ∧
-  ∀ i, s ≤ i → ∀ e, w.hist[i]? = some e → key e.obj = k → w.a ≤ i
+  ∀ i, s ≤ i → ∀ e, w.hist[i]? = some e → key e.obj = k → w.a ≤ i ∨ i ∈ w.lost
 
 structure CInv (w : CW K O) : Prop where
   pipe : w.a ≤ w.b ∧ w.b ≤ w.c ∧ w.c ≤ w.hist.length
@@ -160,18 +160,18 @@ theorem cinv_serverChange (w : CW K O) (e : Ev O) (hi : CInv key ver acc w)
     · show lookup k w.items = view acc (CW.state key ver { w with hist := w.hist ++ [e] } s k)
       rw [state_append key ver w e s hs]; exact hl
     · intro i his e' he' hk
-      show w.a ≤ i
+      show w.a ≤ i ∨ i ∈ w.lost
       by_cases hlt : i < w.hist.length
       · have he'' : w.hist[i]? = some e' := by
           have : (w.hist ++ [e])[i]? = some e' := he'
           rwa [List.getElem?_append_left hlt] at this
         exact hp i his e' he'' hk
-      · have := hi.pipe; omega
+      · have := hi.pipe; left; omega
 
 /-- steps that only move the watch pipeline positions -/
 theorem cinv_pipeline (w w' : CW K O) (hi : CInv key ver acc w)
     (hh : w'.hist = w.hist) (hit : w'.items = w.items) (hr : w'.ready = w.ready) (ha : w'.a = w.a)
-    (hpub : w'.published = w.published)
+    (hpub : w'.published = w.published) (hlost : w'.lost = w.lost)
     (hpipe : w'.a ≤ w'.b ∧ w'.b ≤ w'.c ∧ w'.c ≤ w'.hist.length)
     (hnr : w.ready = false → w'.b = 0 ∧ w'.c = 0 ∧ w'.live = false) : CInv key ver acc w' := by
   refine ⟨hpipe, ?_, by rw [hh]; exact hi.mono, ?_, ?_⟩
@@ -190,7 +190,7 @@ theorem cinv_pipeline (w w' : CW K O) (hi : CInv key ver acc w)
     refine ⟨s, by rw [hh]; exact hs, ?_, ?_⟩
     · rw [hit, state_congr key ver w w' hh s]; exact hl
     · intro i his e he hk
-      rw [hh] at he; rw [ha]
+      rw [hh] at he; rw [ha, hlost]
       exact hp i his e he hk
 
 end
@@ -203,10 +203,23 @@ variable {K O : Type} [DecidableEq K]
 variable (key : O → K) (ver : O → Option Int) (acc : O → Bool)
 
 theorem ccut_mk (w : CW K O) (items' : Items K O) (r l : Bool) (a' b' c' : Nat) (st : Option StopKind)
-    (pub : List (Ev O)) (k : K) (s : Nat) (hs : s ≤ w.hist.length)
+    (pub : List (Ev O)) (lost' : List Nat) (k : K) (s : Nat) (hs : s ≤ w.hist.length)
     (hl : lookup k items' = view acc (w.state key ver s k))
-    (hp : ∀ i, s ≤ i → ∀ e, w.hist[i]? = some e → key e.obj = k → a' ≤ i) :
-    CCut key ver acc ⟨w.hist, items', r, l, a', b', c', st, pub⟩ k s := ⟨hs, hl, hp⟩
+    (hp : ∀ i, s ≤ i → ∀ e, w.hist[i]? = some e → key e.obj = k → a' ≤ i ∨ i ∈ lost') :
+    CCut key ver acc ⟨w.hist, items', r, l, a', b', c', st, pub, lost'⟩ k s := ⟨hs, hl, hp⟩
+
+/-- an older (or absent) cached entry is always replaced by the event's outcome -/
+theorem capply_older (a : AMap K O) (e : Ev O) (v : Int) (hv : ver e.obj = some v) (cur : Option (Entry O))
+    (hold : ∀ c, cur = some c → c.ver < v) :
+    capply acc cur e.t v e.obj = view acc (papply key ver a e (key e.obj)) := by
+  unfold papply capply
+  cases ht : e.t with
+  | delete => simp [AMap.set, view]
+  | create | update =>
+    simp only [hv]
+    cases cur with
+    | none => simp [AMap.set, view]
+    | some c => simp [AMap.set, view, hold c rfl]
 
 theorem cinv_apply (w : CW K O) (hi : CInv key ver acc w) (hen : w.enabled key ver .apply) :
     CInv key ver acc (w.step key ver acc .apply) := by
@@ -221,6 +234,7 @@ theorem cinv_apply (w : CW K O) (hi : CInv key ver acc w) (hen : w.enabled key v
     | false => have := hi.notready hrd; omega
   obtain ⟨hwf, hvs⟩ := hi.wf _ _ he
   obtain ⟨v, hv⟩ := Option.isSome_iff_exists.mp hvs
+  have hvs' : ∀ (i : Nat) (e : Ev O), w.hist[i]? = some e → (ver e.obj).isSome = true := fun i e h => (hi.wf i e h).2
   simp only [CW.step, he]
   refine ⟨by show w.a + 1 ≤ w.b ∧ w.b ≤ w.c ∧ w.c ≤ w.hist.length; omega, ?_, hi.mono, ?_, ?_⟩
   · intro i e' he'; exact hi.wf i e' he'
@@ -231,31 +245,58 @@ theorem cinv_apply (w : CW K O) (hi : CInv key ver acc w) (hen : w.enabled key v
     · subst hk
       rcases Nat.lt_or_ge w.a s with hcs | hsc
       · rcases capply_reflected key ver acc (w.state key ver w.a) e v hv (lookup (key e.obj) w.items) with h1 | ⟨h1, _⟩
-        · refine ⟨w.a + 1, ccut_mk key ver acc w _ _ _ _ _ _ _ _ _ _ (by omega) ?_ (fun i hi' _ _ _ => hi')⟩
+        · refine ⟨w.a + 1, ccut_mk key ver acc w _ _ _ _ _ _ _ _ _ _ _ (by omega) ?_ (fun i hi' _ _ _ => Or.inl hi')⟩
           show lookup (key e.obj) (doUpdate key ver acc w.items e.t e.obj).1 = _
           rw [doUpdate_own key ver _ _ _ _ v hv, h1, state_succ key ver w _ _ he]
-        · refine ⟨s, ccut_mk key ver acc w _ _ _ _ _ _ _ _ _ _ hs ?_ (fun i hi' e' he' hk' => by show w.a + 1 ≤ i; omega)⟩
+        · refine ⟨s, ccut_mk key ver acc w _ _ _ _ _ _ _ _ _ _ _ hs ?_ (fun i hi' e' he' hk' => Or.inl (by show w.a + 1 ≤ i; omega))⟩
           show lookup (key e.obj) (doUpdate key ver acc w.items e.t e.obj).1 = _
           rw [doUpdate_own key ver _ _ _ _ v hv, h1]; exact hl
-      · have hstab : w.state key ver w.a (key e.obj) = w.state key ver s (key e.obj) := by
-          apply state_stable key ver w _ s w.a hsc (by omega)
-          intro i h1 h2 e' he' hk'
-          have := hp i h1 e' he' hk'
-          omega
-        refine ⟨w.a + 1, ccut_mk key ver acc w _ _ _ _ _ _ _ _ _ _ (by omega) ?_ (fun i hi' _ _ _ => hi')⟩
+      · -- the cached entry stems from a change before `s ≤ a`: it is older than this one (whatever was lost
+        -- in between), so the event's outcome replaces it
+        have hold : ∀ c, lookup (key e.obj) w.items = some c → c.ver < v := by
+          intro c hc
+          rw [hc] at hl
+          obtain ⟨hps, _⟩ := view_some_eq hl.symm
+          obtain ⟨ic, ec, hic, hec, _, hvc, _⟩ := state_some_last key ver w hvs' s hs (key e.obj) c hps
+          exact hi.mono ic w.a ec e c.ver v (by omega) hec he hvc hv
+        refine ⟨w.a + 1, ccut_mk key ver acc w _ _ _ _ _ _ _ _ _ _ _ (by omega) ?_ (fun i hi' _ _ _ => Or.inl hi')⟩
         show lookup (key e.obj) (doUpdate key ver acc w.items e.t e.obj).1 = _
-        rw [doUpdate_own key ver _ _ _ _ v hv, hl, ← hstab, capply_in_step key ver _ _ e v hv hwf,
+        rw [doUpdate_own key ver _ _ _ _ v hv, capply_older key ver acc (w.state key ver w.a) e v hv _ hold,
           state_succ key ver w _ _ he]
-    · refine ⟨s, ccut_mk key ver acc w _ _ _ _ _ _ _ _ _ _ hs ?_ ?_⟩
+    · refine ⟨s, ccut_mk key ver acc w _ _ _ _ _ _ _ _ _ _ _ hs ?_ ?_⟩
       · show lookup k (doUpdate key ver acc w.items e.t e.obj).1 = _
         rw [doUpdate_frame key ver _ _ _ _ k hk]; exact hl
       · intro i hi' e' he' hk'
-        show w.a + 1 ≤ i
-        have h1 := hp i hi' e' he' hk'
-        have : i ≠ w.a := by
-          intro heq; subst heq
-          rw [he] at he'; cases he'; exact hk hk'
-        omega
+        show w.a + 1 ≤ i ∨ i ∈ w.lost
+        rcases hp i hi' e' he' hk' with h1 | h1
+        · have : i ≠ w.a := by
+            intro heq; subst heq
+            rw [he] at he'; cases he'; exact hk hk'
+          left; omega
+        · exact Or.inr h1
+
+/-- a change lost to a buffer overflow: the cache is untouched, the position moves on -/
+theorem cinv_drop (w : CW K O) (hi : CInv key ver acc w) (hen : w.enabled key ver .drop) :
+    CInv key ver acc (w.step key ver acc .drop) := by
+  obtain ⟨_, hab⟩ := hen
+  obtain ⟨hp1, hp2, hp3⟩ := hi.pipe
+  have hr : w.ready = true := by
+    cases hrd : w.ready with
+    | true => rfl
+    | false => have := hi.notready hrd; omega
+  simp only [CW.step]
+  refine ⟨by show w.a + 1 ≤ w.b ∧ w.b ≤ w.c ∧ w.c ≤ w.hist.length; omega, fun i e he => hi.wf i e he, hi.mono, ?_, ?_⟩
+  · intro h; rw [show w.ready = false from h] at hr; cases hr
+  · intro _ k
+    obtain ⟨s, hs, hl, hp⟩ := hi.cut hr k
+    refine ⟨s, ccut_mk key ver acc w _ _ _ _ _ _ _ _ _ _ _ hs hl ?_⟩
+    intro i hi' e' he' hk'
+    show w.a + 1 ≤ i ∨ i ∈ w.a :: w.lost
+    rcases hp i hi' e' he' hk' with h1 | h1
+    · by_cases heq : i = w.a
+      · right; rw [heq]; exact List.mem_cons_self
+      · left; omega
+    · right; exact List.mem_cons_of_mem _ h1
 
 /-- what a list result does to one key of the cache -/
 theorem list_key (w : CW K O) (j : Nat) (plist : List O) (hsnap : Snapshot key ver plist (w.state key ver j)) (k : K) :
@@ -273,8 +314,8 @@ theorem cinv_listApplied (w : CW K O) (j : Nat) (plist : List O) (hi : CInv key 
   -- a cut at the snapshot index `j`
   have atJ : lookup k (doSync key ver acc w.items plist).1 = view acc (w.state key ver j k) →
       ∃ s, CCut key ver acc ⟨w.hist, (doSync key ver acc w.items plist).1, true, true, j, j, j, w.stopped,
-        (if w.ready then w.published ++ (doSync key ver acc w.items plist).2 else w.published)⟩ k s :=
-    fun h => ⟨j, ccut_mk key ver acc w _ _ _ _ _ _ _ _ k j hj h (fun i hi' _ _ _ => hi')⟩
+        (if w.ready then w.published ++ (doSync key ver acc w.items plist).2 else w.published), []⟩ k s :=
+    fun h => ⟨j, ccut_mk key ver acc w _ _ _ _ _ _ _ _ _ k j hj h (fun i hi' _ _ _ => Or.inl hi')⟩
   by_cases hr : w.ready = true
   · obtain ⟨s, hs, hl, hp⟩ := hi.cut hr k
     cases hP : w.state key ver j k with
@@ -294,7 +335,7 @@ theorem cinv_listApplied (w : CW K O) (j : Nat) (plist : List O) (hi : CInv key 
             apply atJ
             rw [hnow, hc, heq, hps]
             simp [csync, view, hacc]
-          · refine ⟨s, ccut_mk key ver acc w _ _ _ _ _ _ _ _ k s hs ?_ (fun i hi' _ _ _ => by show j ≤ i; omega)⟩
+          · refine ⟨s, ccut_mk key ver acc w _ _ _ _ _ _ _ _ _ k s hs ?_ (fun i hi' _ _ _ => Or.inl (by show j ≤ i; omega))⟩
             show lookup k (doSync key ver acc w.items plist).1 = _
             rw [hnow, hP, hc, hps]; simp [csync, hv]
   · have hr' : w.ready = false := by simpa using hr
@@ -309,31 +350,32 @@ theorem cinv_step (w : CW K O) (l : CLabel O) (hi : CInv key ver acc w) (hen : w
   cases l with
   | serverChange e => exact cinv_serverChange key ver acc w e hi hen
   | apply => exact cinv_apply key ver acc w hi hen
+  | drop => exact cinv_drop key ver acc w hi hen
   | listApplied j plist => exact cinv_listApplied key ver acc w j plist hi hen
   | decode =>
     obtain ⟨_, hlive, hc⟩ := hen
-    refine cinv_pipeline key ver acc w _ hi rfl rfl rfl rfl rfl ?_ ?_
+    refine cinv_pipeline key ver acc w _ hi rfl rfl rfl rfl rfl rfl ?_ ?_
     · show w.a ≤ w.b ∧ w.b ≤ w.c + 1 ∧ w.c + 1 ≤ w.hist.length; omega
     · intro h; have := hi.notready h; rw [this.2.2.2.2.1] at hlive; cases hlive
   | take =>
     obtain ⟨_, hbc⟩ := hen
-    refine cinv_pipeline key ver acc w _ hi rfl rfl rfl rfl rfl ?_ ?_
+    refine cinv_pipeline key ver acc w _ hi rfl rfl rfl rfl rfl rfl ?_ ?_
     · show w.a ≤ w.b + 1 ∧ w.b + 1 ≤ w.c ∧ w.c ≤ w.hist.length; omega
     · intro h; have := hi.notready h; omega
   | sessEnd =>
-    refine cinv_pipeline key ver acc w _ hi rfl rfl rfl rfl rfl ?_ ?_
+    refine cinv_pipeline key ver acc w _ hi rfl rfl rfl rfl rfl rfl ?_ ?_
     · show w.a ≤ w.b ∧ w.b ≤ w.b ∧ w.b ≤ w.hist.length; omega
     · intro h; have := hi.notready h; exact ⟨this.2.2.1, this.2.2.1, rfl⟩
   | retry =>
     obtain ⟨_, _, hrdy⟩ := hen
-    refine cinv_pipeline key ver acc w _ hi rfl rfl rfl rfl rfl ?_ ?_
+    refine cinv_pipeline key ver acc w _ hi rfl rfl rfl rfl rfl rfl ?_ ?_
     · show w.a ≤ w.b ∧ w.b ≤ w.b ∧ w.b ≤ w.hist.length; omega
     · intro h; rw [h] at hrdy; cases hrdy
   | listFail kd =>
-    refine cinv_pipeline key ver acc w _ hi rfl rfl rfl rfl rfl ⟨hp1, hp2, hp3⟩ ?_
+    refine cinv_pipeline key ver acc w _ hi rfl rfl rfl rfl rfl rfl ⟨hp1, hp2, hp3⟩ ?_
     intro h; have := hi.notready h; exact ⟨this.2.2.1, this.2.2.2.1, rfl⟩
   | close =>
-    refine cinv_pipeline key ver acc w _ hi rfl rfl rfl rfl rfl ⟨hp1, hp2, hp3⟩ ?_
+    refine cinv_pipeline key ver acc w _ hi rfl rfl rfl rfl rfl rfl ⟨hp1, hp2, hp3⟩ ?_
     intro h; have := hi.notready h; exact ⟨this.2.2.1, this.2.2.2.1, rfl⟩
 
 theorem creach_inv {w : CW K O} (h : CReach key ver acc w) : CInv key ver acc w := by
